@@ -536,7 +536,11 @@ fn ep_c11(s: &mut S, r: &mut Rng, maxc: usize, maxr: usize) {
             if r.chance(1, 2) {
                 pre.push_str("\x1b[?6h");
             }
-            pre.push_str(&format!("\x1b[{};{}H", r.range(1, rr), r.range(1, c)));
+            if r.chance(1, 2) {
+                pre.push_str(&format!("\x1b[{};{}H", rr, c)); // far corner: outside after any shrink
+            } else {
+                pre.push_str(&format!("\x1b[{};{}H", r.range(1, rr), r.range(1, c)));
+            }
             if r.chance(1, 2) {
                 pre.push_str(&gen::sgr_small(r));
             }
@@ -557,6 +561,22 @@ fn ep_c11(s: &mut S, r: &mut Rng, maxc: usize, maxr: usize) {
         if r.chance(1, 2) {
             let t = if r.chance(1, 2) { gen::leave_alt(r) } else { gen::enter_alt(r) };
             s.feed_str(a, &t, true);
+        }
+        if s.alive(a) && r.chance(1, 2) {
+            if r.chance(1, 2) {
+                let t = gen::leave_alt(r);
+                s.feed_str(a, &t, true);
+            }
+            // a resize after the contexts were saved (shrinking leaves them outside the screen; a width
+            // that coincides with a tab stop; ...) - on the primary screen this is outside the known class
+            let (c0, r0) = s.vt(a).size();
+            let (nc, nr) = match r.n(6) {
+                0 => (8.min(c0.max(1)), r0),
+                1 | 2 | 3 => (r.range(1, c0), r.range(1, r0)),
+                4 => (16, r0),
+                _ => next_size(r, c0, r0, maxc, maxr),
+            };
+            s.resize(a, nc, nr, true);
         }
         if s.alive(a) && r.chance(2, 3) {
             // park the cursor in the wrap-pending position
@@ -597,6 +617,17 @@ fn ep_c11(s: &mut S, r: &mut Rng, maxc: usize, maxr: usize) {
         s.feed_str(a, &rest, true);
         s.feed_str(b, &rest, true);
         s.rel("ObsEq", &[a, b]);
+    }
+    // both saved contexts are always probed (restore here, switch screen, restore there)
+    if r.chance(2, 3) {
+        for t in ["\x1b8P", "\x1b[?1047h\x1b8Q", "\x1b[?1047l\x1b8R", "\x1b[?1047h\x1b8S"] {
+            if !s.alive(a) || !s.alive(b) {
+                return;
+            }
+            s.feed_str(a, t, true);
+            s.feed_str(b, t, true);
+            s.rel("ObsEq", &[a, b]);
+        }
     }
     let np = r.range(2, 8);
     for _ in 0..np {
